@@ -94,6 +94,7 @@ def parseOp (st : St) : Nat → Json → R Op
         | "dict" => pure Kind.dict
         | "tuple" => pure Kind.tuple
         | "array" => pure Kind.array
+        | "uncopyable" => pure Kind.uncopyable
         | k => throw s!"bad node kind {k}"
       let imms ← (← arr nd "imm").toList.mapM fun kv => do
         match (← kv.getArr?).toList with
@@ -206,6 +207,10 @@ def exec (st : St) (j : Json) : R St := do
       let flag := if worldOK2B (classDescs st) st.heap then "T" else "F"
       pure (setRoot { st with heap := h, copyHyps := st.copyHyps ++ flag } (← str j "r") l)
     | none => throw "copy: out of fuel or dangling reference"
+  | "copyfail" =>   -- a copy that must raise: the model's `copyCmd` keeps the heap
+    match copyCmd (classDescs st) st.heap (← rootLoc st (← str j "of")) with
+    | (h, none) => pure { st with heap := h, copyHyps := st.copyHyps ++ "X" }
+    | (_, some _) => throw "copyfail: the model copies this object"
   | "op" =>
     let op ← parseOp st 4 (← obj j "op")
     pure { st with heap := applyOp st.heap (← rootLoc st (← str j "r")) op }
